@@ -106,9 +106,6 @@ def analyse_chain(ctx, label, fn, ch, node, allow_known=False):
         if op in OTHER_TF:
             ok_all = False
             ctx.fail("C08.CARRY", n, f"{label}: `{op}()` is applied to the text that becomes the name", construct=f"{label}:{op}")
-        if op in LAST_SEP:
-            ok_all = False
-            ctx.fail("C08.CARRY", n, f"{label}: the name is cut at the LAST occurrence of the separator (`{op}`): a name containing the separator is truncated", construct=f"{label}:{op}")
         if op in TRIM_L and not later_cut_head:
             ok_all = False
             ctx.fail("C08.CARRY", n, f"{label}: `{op}()` is applied to the name field itself (no further field is cut off after it): names with leading spaces are altered",
